@@ -158,7 +158,7 @@ def shared(chk, part="core"):
     key = tree_key({"tier": chk.tier, "seed": chk.seed, "part": part, "v": 3})
     os.makedirs(CACHE, exist_ok=True)
     path = os.path.join(CACHE, "%s-%s.json.gz" % (part, key))
-    lock = open(os.path.join(CACHE, "%s.lock" % part), "w")
+    lock = open(os.path.join(CACHE, "%s-%s.lock" % (part, chk.tier)), "w")
     fcntl.flock(lock, fcntl.LOCK_EX)
     try:
         if os.path.exists(path) and not os.environ.get("VERIF_NOCACHE"):
